@@ -325,17 +325,21 @@ class BaseObserver(EventDispatcher):
         with self._lock:
             watch = ObservedWatch(path, recursive=recursive, event_filter=event_filter, follow_symlink=follow_symlink)
 
-            # An emitter that has ended by itself (its watched path was deleted) reports
-            # nothing any more: a fresh one takes its place.
-            emitter = self._emitter_for_watch.get(watch)
-            if emitter is not None and emitter.ident is not None and not emitter.is_alive() and self.should_keep_running():
-                self._remove_emitter(emitter)
+            # An emitter that has stopped itself (its watched path was deleted) reports
+            # nothing any more: a fresh one takes its place, once it has started.
+            ended = self._emitter_for_watch.get(watch)
+            if ended is not None and not (
+                ended.ident is not None and not ended.should_keep_running() and self.should_keep_running()
+            ):
+                ended = None
 
-            # If we don't have an emitter for this watch already, create it.
-            if watch not in self._emitter_for_watch:
+            # If we don't have a working emitter for this watch already, create it.
+            if watch not in self._emitter_for_watch or ended is not None:
                 emitter = self._emitter_class(self.event_queue, watch, timeout=self.timeout, event_filter=event_filter)
                 if self.is_alive() and self.should_keep_running():
                     emitter.start()
+                if ended is not None:
+                    self._remove_emitter(ended)
                 self._add_emitter(emitter)
             # Register the handler only once the emitter exists, so that a failed
             # schedule() leaves no trace (dispatching needs the lock we are holding).
